@@ -76,6 +76,33 @@ def natDigits (n : Nat) : List Char := natDigitsAux (n+1) n []
 def printInt (i : Int) : List Char :=
   if i < 0 then '-' :: natDigits i.natAbs else natDigits i.natAbs
 
+/-- `big.Int.SetString(s, 10)` on a fresh big.Int with the result flag dropped (token.go randomPartitioner.ParseString):
+    an optional sign and one or more decimal digits ↦ the number (underscores are accepted with base 0 only);
+    anything else leaves what was scanned so far — not modelled (`none`), not constrained by the property. -/
+def parseBig (cs : List Char) : Option Int :=
+  let sd := splitSign cs
+  (parseNat sd.2).map (fun n => if sd.1 then -(n : Int) else (n : Int))
+
+/-! ### which partitioner a cluster's partitioner class name selects (token.go newTokenRing) -/
+
+inductive Partitioner
+  | murmur3 | ordered | random
+  deriving DecidableEq, Repr
+
+/-- `strings.HasSuffix(s, suf)`: the last `len(suf)` bytes of `s` are `suf` (said on the reversed strings) -/
+def hasSuffix (s suf : List Char) : Bool := suf.reverse.isPrefixOf s.reverse
+
+def nameMurmur3 : List Char := ['M', 'u', 'r', 'm', 'u', 'r', '3', 'P', 'a', 'r', 't', 'i', 't', 'i', 'o', 'n', 'e', 'r']
+def nameOrdered : List Char := ['O', 'r', 'd', 'e', 'r', 'e', 'd', 'P', 'a', 'r', 't', 'i', 't', 'i', 'o', 'n', 'e', 'r']
+def nameRandom : List Char := ['R', 'a', 'n', 'd', 'o', 'm', 'P', 'a', 'r', 't', 'i', 't', 'i', 'o', 'n', 'e', 'r']
+
+/-- the `if strings.HasSuffix … else if … else error` chain of `newTokenRing`; `none` = "unsupported partitioner" -/
+def selectPartitioner (name : List Char) : Option Partitioner :=
+  if hasSuffix name nameMurmur3 then some .murmur3
+  else if hasSuffix name nameOrdered then some .ordered
+  else if hasSuffix name nameRandom then some .random
+  else none
+
 /-! ### routing key (session.go createRoutingKey) -/
 
 def be16 (n : Nat) : List UInt8 := [UInt8.ofNat (n / 256 % 256), UInt8.ofNat (n % 256)]
